@@ -298,6 +298,9 @@ def run(ctx, rep):
     # the invariant the map_label slice triage relies on (offsets belong to the current text), re-verified here
     from rules.c11 import rule_cache
     rule_cache(ctx, rep, rid="R-C12-cache")
+    # ... and the text that is cut is the text of the label's own file
+    from rules.c05 import rule_pair
+    rule_pair(ctx, rep, rid="R-C12-pair")
 
 
 def thorough_extra(ctx, rep):
